@@ -61,6 +61,20 @@ Theorem C05_push_oci_complete :
 Proof. exact oci_push_complete. Qed.
 Print Assumptions C05_push_oci_complete.
 
+(* the same for a named push to the file store under a fresh name (the fallback path
+   = LimitedStorage over the memory store has no completeness theorem: correspondence only) *)
+Theorem C05_push_file_complete :
+  forall (H : str -> str -> str) comb fuel s name path d evs,
+    name <> [] -> name_in name (f_names s) = false ->
+    nfail evs = 0%nat -> valid_digest (d_dg d) = true ->
+    d_dg d = digest_of H (alg_of (d_dg d)) (stream evs) -> d_sz d = Z.of_nat (length (stream evs)) ->
+    (ev_weight evs < fuel)%nat ->
+    file_push H comb true fuel s name path d evs
+    = (None, mkFs (assoc_set (f_files s) path (stream evs)) (name :: f_names s)
+                  (assoc_set (f_d2p s) (d_dg d) path) (f_fb s)).
+Proof. exact file_push_complete. Qed.
+Print Assumptions C05_push_file_complete.
+
 (* FetchAll = Fetch then ReadAll: whatever bytes a store's Fetch serves (even a blob
    corrupted on disk), FetchAll returns them only if they match the descriptor *)
 Theorem C05_fetchall :
@@ -149,7 +163,9 @@ Proof. exact mem_push_spec. Qed.
 Print Assumptions C05_push_memory.
 
 (* oci.Storage.Push: success adds exactly the descriptor's bytes under blobs/; failure
-   leaves blobs/ (and ingest/) as they were *)
+   leaves blobs/ as it was (ingest/ is not part of this sequential model: left-over
+   ingest files are judged by the oracle, signature ingest-left, and in the concurrent
+   model by [ingest_files]) *)
 Theorem C05_push_oci :
   forall (H : str -> str -> str) comb fuel s d src e s',
     oci_push H comb true fuel s d src = (e, s') ->
@@ -300,6 +316,20 @@ Theorem C05_concurrent_same_digest :
                   matches_desc H (d_dg (t_d t)) (d_sz (t_d t)) w' /\ stream (t_evs t) = w').
 Proof. exact C05_concurrent_same_digest_l. Qed.
 Print Assumptions C05_concurrent_same_digest.
+
+(* the same for one cas.Memory (directly or through LimitedStorage): Load, ReadAll,
+   LoadOrStore of any number of threads in any order *)
+Theorem C05_concurrent_memory :
+  forall (H : str -> str -> str) m ts sched st,
+    mem_reach H m -> Forall (fun t => m_pc t = MStart) ts ->
+    mrun H (mkM m ts) sched = Some st ->
+    (forall d bs, mem_get (ms_mem st) d = Some bs -> matches_desc H (d_dg d) (d_sz d) bs) /\
+    (forall i st' t buf, mstep H st i = Some st' -> nth_error (ms_thr st) i = Some t ->
+       m_pc t = MRead None buf -> mem_get (ms_mem st) (m_d t) = None ->
+       mem_get (ms_mem st') (m_d t) = Some buf /\ matches_desc H (d_dg (m_d t)) (d_sz (m_d t)) buf /\
+       exists rest, stream (m_evs t) = buf ++ rest).
+Proof. exact memory_concurrent. Qed.
+Print Assumptions C05_concurrent_memory.
 
 (* the outcome set the implementation's concurrent runs are compared with (exhaustive
    interleaving of the micro-steps, [explore]) consists of runs of the transition
